@@ -162,6 +162,10 @@ def _build(case):
     seed = case["seed"]
     if case.get("reg_random_state") == "none":
         seed = None
+    if case.get("missing_label") is not None:
+        reg = _build(dict(case, missing_label=None))
+        reg.set_params(missing_label=case["missing_label"])
+        return reg
     if comp in KERNEL:
         md = None if case["gamma"] is None else {"gamma": case["gamma"]}
         if comp == "NICKernelRegressor":
@@ -301,6 +305,9 @@ def _case(draw):
     # random_state (None is the default)
     case["sample_seed"] = draw(st.sampled_from([0, 0, 1, 12345]))
     case["reg_random_state"] = draw(st.sampled_from(["int", "int", "none"]))
+    # the missing-label sentinel is a constructor parameter: NaN (default) or
+    # a number that is not among the labels
+    case["missing_label"] = draw(st.sampled_from([None, None, -1000.0, 999]))
     return case
 
 
@@ -406,6 +413,14 @@ def _supports_return_std(est_name):
                         "NeedsThree")
 
 
+def _y_arg(case, y):
+    """y as handed to fit: NaN replaced by the configured sentinel."""
+    ml = case.get("missing_label")
+    if ml is None:
+        return y.copy()
+    return np.where(np.isnan(y), float(ml), y)
+
+
 def _fallback_expectation(case):
     """(fit_fails, exp_mean, exp_std or None) derived from the input."""
     y = np.array(case["y"], dtype=float)
@@ -501,7 +516,8 @@ def _run_kernel(case):
     labels = [f"component={comp}", f"n_lab={min(n_lab, 3)}"
               + ("+" if n_lab >= 3 else ""), f"prior={pcl}",
               f"weights={case.get('sample_weight') is not None}",
-              f"gamma_none={case['gamma'] is None}"]
+              f"gamma_none={case['gamma'] is None}",
+              f"missing_label={'nan' if case.get('missing_label') is None else 'number'}"]
     for g in sorted(set(model["geom"])):
         labels.append(f"geom={g}")
     nontrivial = n_lab <= 1 or not model["proper"]
@@ -519,9 +535,9 @@ def _run_kernel(case):
         return Outcome([exc_violation(comp, reg, base_trig, "construct")],
                        nontrivial, labels)
     if sw is None:
-        ok, r = guarded(reg.fit, X.copy(), y.copy())
+        ok, r = guarded(reg.fit, X.copy(), _y_arg(case, y))
     else:
-        ok, r = guarded(reg.fit, X.copy(), y.copy(),
+        ok, r = guarded(reg.fit, X.copy(), _y_arg(case, y),
                         sample_weight=np.array(sw, dtype=float))
     if not ok:
         return Outcome([exc_violation(comp, r, base_trig, "fit")],
@@ -623,7 +639,8 @@ def _run_wrapper(case):
     fails, exp_mean, exp_std, n_lab = _fallback_expectation(case)
     labels = [f"component={comp}", f"n_lab={min(n_lab, 3)}"
               + ("+" if n_lab >= 3 else ""),
-              "branch=fallback" if fails else "branch=fitted"]
+              "branch=fallback" if fails else "branch=fitted",
+              f"missing_label={'nan' if case.get('missing_label') is None else 'number'}"]
     nontrivial = n_lab <= 1 or fails
     X = np.array(case["X"], dtype=float)
     y = np.array(case["y"], dtype=float)
@@ -644,7 +661,7 @@ def _run_wrapper(case):
     if not ok:
         return Outcome([exc_violation(comp, reg, trig, "construct")],
                        nontrivial, labels)
-    ok, r = guarded(reg.fit, X.copy(), y.copy())
+    ok, r = guarded(reg.fit, X.copy(), _y_arg(case, y))
     if not ok:
         return Outcome([exc_violation(comp, r, trig, "fit")], nontrivial,
                        labels)
